@@ -176,6 +176,7 @@ int flush_pubsub_msgs(void *data, const char *key, void *value) {
         M_WARN("Failed to create flushing queue.\n");
     }
 
+    bool poisonpilled = false;
     while (mod->pubsub_fd[0] != -1 &&
         read(mod->pubsub_fd[0], &mm, sizeof(ps_priv_t *)) == sizeof(ps_priv_t *)) {
         /*
@@ -184,6 +185,15 @@ int flush_pubsub_msgs(void *data, const char *key, void *value) {
          * Else, just free msg.
          */
         if (!stopping_mod && m_mod_is(mod, M_MOD_RUNNING)) {
+            if (mm->msg.system && mm->msg.topic && !strcmp(mm->msg.topic, M_PS_MOD_POISONPILL)) {
+                /*
+                 * A poisonpill is not for the user: deliver what was sent before it,
+                 * then stop the module (dropping anything sent after it), as recv_events() does.
+                 */
+                poisonpilled = true;
+                m_mem_unref(mm);
+                break;
+            }
             M_DEBUG("Flushing enqueued pubsub message for module '%s'.\n", mod->name);
             evt_priv_t *msg = new_evt(mm->sub);
             if (msg && flushed) {
@@ -196,6 +206,10 @@ int flush_pubsub_msgs(void *data, const char *key, void *value) {
         m_mem_unref(mm);
     }
     call_pubsub_cb(mod, flushed);
+    if (poisonpilled && m_mod_is(mod, M_MOD_RUNNING)) {
+        M_INFO("PoisonPilling '%s'.\n", mod->name);
+        stop(mod, true);
+    }
     
     /* 
      * If we are stopping the ctx loop,
